@@ -1133,8 +1133,10 @@ def phi_1D_X(xx, nu=1.0, theta0=1.0, gamma=0, h=0.5, beta=1, alpha=1):
         phi (array): A new phi array.
     """
     Kv = (2.*beta+4.)*(beta+1.)/(9.*beta)
-    Km1 = 4./3. * gamma*(0.5+h)
-    Km2 = 4./3.*gamma*(1.-2.*h)
+    # Drift in a population of relative size nu is 1/nu as strong, so
+    # the equilibrium depends on the product gamma*nu.
+    Km1 = 4./3. * gamma*nu*(0.5+h)
+    Km2 = 4./3.*gamma*nu*(1.-2.*h)
     g1 = Km1/Kv
     g2 = Km2/Kv
 
